@@ -60,8 +60,16 @@ def decide_wb_models(tier):
                                      Tier=q(tier), Export="TRUE")]
 
 
+def uri_equiv_models(tier):
+    # reuse is owed for every spelling RFC 3986 calls equivalent: the equivalent pairs of the Uri model
+    return [mc("Uri", "uri", invariants=("KeyExact", "NFIdempotent"), Defects="{}", Tier=q(tier), Export="TRUE",
+               convert=lambda rows, tier, seed: [s_ for s_ in uri_scenarios([x for x in rows if x["equiv"] and not x["gap"]], tier, seed)
+                                                 if s_["id"].startswith("uri/")])]
+
+
 for _p in ("C01", "C02", "C09", "C11", "C13"):
-    PLANS[_p] = Plan(_p, (lambda tier: decide_wb_models(tier) + hist_models("cond")(tier)) if _p == "C02" else decide_wb_models,
+    PLANS[_p] = Plan(_p, (lambda tier: decide_wb_models(tier) + hist_models("cond")(tier)) if _p == "C02"
+                     else (lambda tier: decide_wb_models(tier) + uri_equiv_models(tier)) if _p == "C09" else decide_wb_models,
                      extra=(lambda tier, seed: gen.random_decide(tier, seed) + gen.client_conditionals(tier)) if _p == "C02"
                      else (lambda tier, seed: gen.random_decide(tier, seed) + gen.random_vary(tier, seed)) if _p == "C09"   # reuse is owed per variant
                      else gen.random_decide,
